@@ -52,6 +52,7 @@ def run(ctx):
     malsec.dzkp_validate_path(ctx, facts, "PATH-verdict")
     malsec.batch_store_grows(ctx, facts, "STORE-grow")
     malsec.segment_packing(ctx, facts, "PACK-slots")
+    malsec.batch_origin(ctx, facts, "PACK-slots")
     malsec.multiply_impls(ctx, facts, "WHO-multiply")
     malsec.field_transport(ctx, facts, "FIELDS-block")
     tables(ctx, facts)
